@@ -56,6 +56,11 @@ class Report:
         self.not_run = []
         self.bounded = []
 
+    def progress(self, msg):
+        if os.environ.get("VERIF_VERBOSE"):
+            sys.stderr.write("[%7.1fs] %s\n" % (time.time() - self.t0, msg))
+            sys.stderr.flush()
+
     # ---- registration
     def function(self, qualified, file):
         self.functions[qualified] = file
@@ -89,6 +94,11 @@ class Report:
             return
         self.violations.append({"obligation": name, "kind": kind, "backend": backend, "detail": detail,
                                 "replay": replay})
+
+    def standin(self, name, kind, backend, detail):
+        """bounded / sampled stand-in for an obligation outside the verifier's reach:
+        reported, never counted as proved"""
+        self.bounded.append({"name": name, "kind": kind, "backend": backend, "detail": detail})
 
     def undecide(self, name, kind, backend, why):
         self.obligations.append({"name": name, "kind": kind, "status": "undecided", "backend": backend})
@@ -145,7 +155,8 @@ class Report:
             "backends": {k: {"obligations": v[0], "solver_time_s": round(v[1], 3)} for k, v in self.backends.items()},
             "samples": self.samples,
             "not_run": self.not_run,
-            "bounded": self.bounded,
+            "bounded_standins_not_counted_as_proved": len(self.bounded),
+            "bounded": self.bounded[:40],
             "notes": self.notes,
             "evaluations": n,
             "distinct_nontrivial": len(set(o["name"] for o in self.obligations)),
@@ -162,8 +173,8 @@ class Report:
             json.dump(ev, fh, indent=1, default=str)
         for l in lines:
             print(l)
-        print("%s: %d obligations, %d discharged, %d violations, %d undecided, %d known-finding, %.1fs" % (
-            self.pid, n, disch, len(self.violations), len(self.undecided), len(self.known_hit), wall))
+        print("%s: %d obligations, %d discharged, %d violations, %d undecided, %d known-finding, %d bounded stand-ins, %.1fs" % (
+            self.pid, n, disch, len(self.violations), len(self.undecided), len(self.known_hit), len(self.bounded), wall))
         sys.stdout.flush()
         if self.violations:
             return 1
